@@ -1,7 +1,9 @@
 import IncrVerif.Proofs.PerKeyH35
+import IncrVerif.Proofs.PerKeyH39
 /-!
 # A run of a per-key change detector, part 2d: the result of an operator whose change detector is necessary is
-necessary (`res_nec`, the ownership walk); `inst_below`; `mid_perkeys`
+necessary (`res_nec`, the ownership walk); `inst_below`; `mid_perkeys`; the ownership walk from a NECESSARY per-key input
+node up to the result (`priv_nec_below`: the instance's return node reaches the per-key input node)
 -/
 namespace IncrVerif.Proofs.PerKeyH
 open IncrVerif.Engine IncrVerif.Driver IncrVerif.Proofs IncrVerif.Proofs.Step IncrVerif.Proofs.Sched
@@ -156,13 +158,267 @@ theorem inst_below_uses {s : State} {tm : Template} {key : Int} {p m : Nat} {loc
     exact ⟨x, h1, hb.tail h2⟩
 
 /-- **the return node of an instance of a template that uses its input reaches the per-key input node** -/
-theorem inst_below {env : Env} {s : State} {tm : Template} {key : Int} {p m : Nat} {locs : List Nat}
-    (hT : TemplOK env tm) (I : Inst s tm key p locs m) : ExpertH.Below s m p := by
-  obtain ⟨x, h1, h2⟩ := inst_below_uses I hT.uses
+theorem inst_below {s : State} {tm : Template} {key : Int} {p m : Nat} {locs : List Nat}
+    (hT : UsesInput tm) (I : Inst s tm key p locs m) : ExpertH.Below s m p := by
+  obtain ⟨x, h1, h2⟩ := inst_below_uses I hT
   have : x = p := by
     have h1 : (p :: locs)[0]? = some x := h1
     simpa using h1.symm
   rw [← this]; exact h2
+
+/-! ## the ownership walk from a necessary per-key input node up to the result -/
+
+theorem option_mapM_mem_back {α β} {f : α → Option β} :
+    ∀ (l : List α) (r : List β), l.mapM f = some r → ∀ b, b ∈ r → ∃ a, a ∈ l ∧ f a = some b := by
+  intro l
+  induction l with
+  | nil =>
+    intro r h b hb
+    rw [List.mapM_nil] at h
+    cases h
+    cases hb
+  | cons a0 l ih =>
+    intro r h b hb
+    rw [List.mapM_cons] at h
+    cases hk : f a0 with
+    | none => rw [hk] at h; cases h
+    | some x =>
+      cases hxs : l.mapM f with
+      | none => rw [hk, hxs] at h; cases h
+      | some xs =>
+        rw [hk, hxs] at h
+        cases h
+        rcases List.mem_cons.1 hb with e | hb
+        · subst e; exact ⟨a0, List.mem_cons_self, hk⟩
+        · obtain ⟨a, h1, h2⟩ := ih xs hxs b hb
+          exact ⟨a, List.mem_cons_of_mem _ h1, h2⟩
+
+/-- the kind of an instance node: not an expert node; its children are resolved operands -/
+theorem instrKind_kidsX {top : Array Nat} {loc : List Nat} {v : Val} {i : Instr} {k : Kind}
+    (h : instrKind top loc v i = some k) :
+    (∀ e, k ≠ .expert e) ∧ ∀ (xs : Array ExpertRec) (x : Nat), x ∈ kidsX xs k → ∃ o, resP top loc o = some x := by
+  cases i with
+  | const w =>
+    simp only [instrKind, Option.some.injEq] at h
+    subst h
+    exact ⟨fun e he => (by cases he), fun xs x hx => (by cases hx)⟩
+  | lhsConst =>
+    simp only [instrKind, Option.some.injEq] at h
+    subst h
+    exact ⟨fun e he => (by cases he), fun xs x hx => (by cases hx)⟩
+  | map f args =>
+    simp only [instrKind, Option.map_eq_some_iff] at h
+    obtain ⟨as, has, rfl⟩ := h
+    refine ⟨fun e he => (by cases he), fun xs x hx => ?_⟩
+    obtain ⟨o, -, ho⟩ := option_mapM_mem_back args as has x hx
+    exact ⟨o, ho⟩
+  | fold f init cs =>
+    simp only [instrKind] at h
+    split at h
+    · cases h
+    · simp only [Option.map_eq_some_iff] at h
+      obtain ⟨as, has, rfl⟩ := h
+      refine ⟨fun e he => (by cases he), fun xs x hx => ?_⟩
+      obtain ⟨o, -, ho⟩ := option_mapM_mem_back cs as has x hx
+      exact ⟨o, ho⟩
+  | _ => cases h
+
+/-- what an operand resolves to against `p :: locs`, the locals within `p … p + len`: a named node or a node of that range -/
+theorem resP_bounds {top : Array Nat} {p len : Nat} {locs : List Nat} {o : Opnd} {x : Nat}
+    (hl : ∀ c, c ∈ locs → p ≤ c ∧ c ≤ p + len) (h : resP top (p :: locs) o = some x) :
+    (∃ k : Nat, top[k]? = some x) ∨ (p ≤ x ∧ x ≤ p + len) := by
+  cases o with
+  | outer k => exact Or.inl ⟨k, h⟩
+  | loc i =>
+    refine Or.inr ?_
+    cases i with
+    | zero =>
+      have h : some p = some x := h
+      cases h
+      omega
+    | succ i =>
+      have h : locs[i]? = some x := h
+      exact hl x (List.mem_of_getElem? h)
+  | abs _ => cases h
+  | slot _ => cases h
+
+theorem range'_bounds (p len : Nat) : ∀ c, c ∈ List.range' (p + 1) len → p ≤ c ∧ c ≤ p + len := by
+  intro c hc
+  rw [List.mem_range'_1] at hc
+  omega
+
+theorem nodup_map_inj {α β} {f : α → β} : ∀ {l : List α}, (l.map f).Nodup → ∀ {a b}, a ∈ l → b ∈ l → f a = f b → a = b := by
+  intro l
+  induction l with
+  | nil => intro _ a b ha; cases ha
+  | cons x l ih =>
+    intro h a b ha hb hab
+    rw [List.map_cons, List.nodup_cons] at h
+    rcases List.mem_cons.1 ha with ea | ha'
+    · rcases List.mem_cons.1 hb with eb | hb'
+      · rw [ea, eb]
+      · rw [ea] at hab
+        exact absurd (List.mem_map.2 ⟨b, hb', hab.symm⟩) h.1
+    · rcases List.mem_cons.1 hb with eb | hb'
+      · rw [eb] at hab
+        exact absurd (List.mem_map.2 ⟨a, ha', hab⟩) h.1
+      · exact ih h.2 ha' hb' hab
+
+section walk
+variable {env : Env} {s : State} {op : Nat} {pr : PerKeyRec} {er : ExpertRec}
+
+/-- a per-key input node is not a node of another entry's instance -/
+theorem entry_not_in_inst {key key' : Int} {p d p' d' : Nat} (E : EntryOK env s op pr er key p d)
+    (E' : EntryOK env s op pr er key' p' d') (h1 : p < p') (h2 : p' ≤ p + (env.perKey pr.fam).instrs.length) : False := by
+  obtain ⟨ed, -, -, hI, -⟩ := E.consec
+  have hj : p' - (p + 1) < (env.perKey pr.fam).instrs.length := by omega
+  obtain ⟨i, hi⟩ : ∃ i, (env.perKey pr.fam).instrs[p' - (p + 1)]? = some i := ⟨_, List.getElem?_eq_getElem hj⟩
+  have hr : (List.range' (p + 1) (env.perKey pr.fam).instrs.length)[p' - (p + 1)]? = some p' := by
+    rw [List.getElem?_range' hj]
+    congr 1; omega
+  have hkind := hI.kind _ i p' hi hr
+  obtain ⟨ep, erp, d0, hk, -⟩ := E'.pnode
+  exact (instrKind_kidsX hkind).1 ep hk
+
+/-- the instances of two entries are disjoint -/
+theorem entry_range_eq {key key' : Int} {p d p' d' : Nat} (E : EntryOK env s op pr er key p d)
+    (E' : EntryOK env s op pr er key' p' d') {x : Nat} (h1 : p ≤ x) (h2 : x ≤ p + (env.perKey pr.fam).instrs.length)
+    (h1' : p' ≤ x) (h2' : x ≤ p' + (env.perKey pr.fam).instrs.length) : p' = p := by
+  refine Classical.byContradiction fun hne => ?_
+  rcases Nat.lt_or_gt_of_ne hne with h | h
+  · exact entry_not_in_inst E' E h (by omega)
+  · exact entry_not_in_inst E E' h (by omega)
+
+/-- two entries with the same per-key input node are the same entry -/
+theorem entry_same {key key' : Int} {p d d' : Nat} (hkeys : (pr.prevNodes.map (·.1)).Nodup)
+    (hm : (key, (p, d)) ∈ pr.prevNodes) (hm' : (key', (p, d')) ∈ pr.prevNodes)
+    (E : EntryOK env s op pr er key p d) (E' : EntryOK env s op pr er key' p d') : d' = d := by
+  obtain ⟨ep, erp, d0, hk, hx, hpk, -⟩ := E.pnode
+  obtain ⟨ep', erp', d0', hk', hx', hpk', -⟩ := E'.pnode
+  rw [hk] at hk'
+  cases hk'
+  rw [hx] at hx'
+  cases hx'
+  rw [hpk] at hpk'
+  cases hpk'
+  have a := (list_lookup_eq_some_iff_mem hkeys key _).2 hm
+  have b := (list_lookup_eq_some_iff_mem hkeys key _).2 hm'
+  rw [a] at b
+  cases b
+  rfl
+
+end walk
+
+/-- **a NECESSARY per-key input node is used by its instance**: the ownership walk up the parent entries (all of them private
+nodes of the node's own instance: instances are disjoint ranges, private nodes have no observer and no name) ends at the
+result, through the dependency of its own entry -/
+theorem priv_nec_below {env : Env} {s : State} {n op : Nat} {pr : PerKeyRec} (D : PD env s (some n))
+    (hop : s.perkeys[op]? = some pr) {key : Int} {p d : Nat} (hm : (key, (p, d)) ∈ pr.prevNodes)
+    {e : Nat} {er : ExpertRec} (hres : (s.nodeD pr.result).kind = .expert e) (he : s.experts[e]? = some er)
+    (hnec : s.isNecessary p = true) : ∃ ed, ed ∈ er.children ∧ ed.dep = d ∧ ExpertH.Below s ed.child p := by
+  have F := D.aux.frag
+  have O := D.aux.pk.ops op pr hop
+  have G := D.inv.graph
+  obtain ⟨x0, e0, er0, hN, he0, hpk0, ⟨d0, rest, hch, hrest, hd0⟩, hent, hout⟩ := O.nodes
+  have hee : e0 = e := by
+    have := hN.result; rw [hres] at this; cases this; rfl
+  subst hee
+  rw [he] at he0
+  cases he0
+  have E := hent key p d hm
+  have hplow : pr.result + 2 < p := by obtain ⟨_, _, _, _, _, _, _, h6⟩ := E.edge; exact h6
+  have hlc := hN.lc
+  have hdeps := (D.aux.slots.deps e0 er he).1
+  obtain ⟨K, hK⟩ := exists_bound (fun m => ((s.nodeD m).height + 1).toNat) s.nodes.size
+  suffices H : ∀ dd x, K + 1 - ((s.nodeD x).height + 1).toNat ≤ dd → p ≤ x →
+      x ≤ p + (env.perKey pr.fam).instrs.length → s.isNecessary x = true → ExpertH.Below s x p →
+      ∃ ed, ed ∈ er.children ∧ ed.dep = d ∧ ExpertH.Below s ed.child p from
+    H _ p (Nat.le_refl _) (Nat.le_refl _) (Nat.le_add_right _ _) hnec (.refl p)
+  intro dd
+  induction dd with
+  | zero =>
+    intro x hd _ _ hn _
+    have := hK x (nec_lt s x hn)
+    have : ((s.nodeD x).height + 1).toNat ≤ K := this
+    omega
+  | succ dd ih =>
+    intro x hd hx1 hx2 hn hb
+    have hx : Priv env pr x := Or.inr ⟨key, p, d, hm, hx1, hx2⟩
+    have hn0 := hn
+    unfold State.isNecessary Node.isNecessary at hn
+    rw [F.force_all x, O.noObs x hx, Bool.or_false] at hn
+    cases hps : (s.nodeD x).parents with
+    | nil => rw [hps] at hn; simp at hn
+    | cons ci restp =>
+      obtain ⟨c, i⟩ := ci
+      have hmem : (c, i) ∈ ((V s).nodeD x).parents := by
+        rw [V_nodeD, vNode_parents, hps]; exact List.mem_cons_self
+      obtain ⟨hcn, hchc⟩ := G.parent x c i hmem
+      obtain ⟨-, -, hlt⟩ := G.child c hcn i x hchc
+      have h0 := (G.nec c hcn).2
+      rw [V_isNecessary] at hcn
+      rw [V_children] at hchc
+      rw [V_nodeD, V_nodeD, vNode_height, vNode_height] at hlt
+      rw [V_nodeD, vNode_height] at h0
+      have hc : c < s.nodes.size := nec_lt s c hcn
+      have hxk : x ∈ kidsX s.experts (s.nodeD c).kind := by
+        rw [← pf_children_kidsX F c]; exact List.mem_of_getElem? hchc
+      -- what a named node / a node of another instance gives
+      have hnamed : ¬ ∃ k : Nat, s.top[k]? = some x := fun ⟨k, hk⟩ => O.privTop k x hk hx
+      rcases O.own c x hc hxk hx with ec | hpc
+      · -- the result: through the dependency of this entry
+        rw [ec, hres] at hxk
+        simp only [kidsX, xRec_some he, List.mem_map] at hxk
+        obtain ⟨ed, hed, hedc⟩ := hxk
+        have hed0 := hed
+        rw [hch] at hed
+        rcases List.mem_cons.1 hed with e1 | hedr
+        · exfalso
+          have : x = pr.lhsChange := by rw [← hedc, e1]
+          omega
+        · obtain ⟨key', p', hm'⟩ := hrest ed hedr
+          have E' := hent key' p' ed.dep hm'
+          obtain ⟨ed', hed', hdep', hI', -⟩ := E'.consec
+          have : ed' = ed := nodup_map_inj hdeps hed' hed0 hdep'
+          subst this
+          rcases resP_bounds (range'_bounds p' _) hI'.ret with hk | ⟨b1, b2⟩
+          · rw [hedc] at hk; exact absurd hk hnamed
+          · rw [hedc] at b1 b2
+            have hpp := entry_range_eq E E' hx1 hx2 b1 b2
+            subst hpp
+            exact ⟨ed', hed0, entry_same O.keys hm hm' E E', by rw [hedc]; exact hb⟩
+      · rcases hpc with ec | ⟨key', p', d', hm', c1, c2⟩
+        · -- the change detector has one child: the conversion node
+          exfalso
+          have hk := hN.lcKind
+          rw [← hlc, ← ec] at hk
+          rw [hk] at hxk
+          simp only [kidsX, List.mem_singleton] at hxk
+          omega
+        · have E' := hent key' p' d' hm'
+          have hin : p' ≤ x ∧ x ≤ p' + (env.perKey pr.fam).instrs.length := by
+            by_cases hcp : c = p'
+            · exfalso
+              obtain ⟨ep, erp, dd0, hk, hxp, -, hchp⟩ := E'.pnode
+              rw [hcp, hk] at hxk
+              simp only [kidsX, xRec_some hxp, hchp, List.map_cons, List.map_nil, List.mem_singleton] at hxk
+              omega
+            · obtain ⟨ed', -, -, hI', -⟩ := E'.consec
+              have hj : c - (p' + 1) < (env.perKey pr.fam).instrs.length := by omega
+              obtain ⟨i', hi'⟩ : ∃ i', (env.perKey pr.fam).instrs[c - (p' + 1)]? = some i' :=
+                ⟨_, List.getElem?_eq_getElem hj⟩
+              have hr : (List.range' (p' + 1) (env.perKey pr.fam).instrs.length)[c - (p' + 1)]? = some c := by
+                rw [List.getElem?_range' hj]
+                congr 1; omega
+              have hkind := hI'.kind _ i' c hi' hr
+              obtain ⟨o, ho⟩ := (instrKind_kidsX hkind).2 s.experts x hxk
+              rcases resP_bounds (fun c hc => range'_bounds p' _ c (List.mem_of_mem_take hc)) ho with hk | hb'
+              · exact absurd hk hnamed
+              · exact hb'
+          have hpp := entry_range_eq E E' hx1 hx2 hin.1 hin.2
+          subst hpp
+          refine ih c ?_ c1 c2 hcn (.step hxk hb)
+          omega
 
 /-! ## the operator records are not read by `Mid` -/
 
